@@ -43,6 +43,8 @@ var alsoDecides = []struct {
 	{"R-BUFWRITE", "proto.encodeTag", []string{"C12"}, "a tag written wrongly is not the encoding of the message"},
 	{"R-SMALL", "raw-varint-byte:proto.encodeTag", []string{"C12"}, "as above"},
 	{"R-SMALL", "proto:wantzero-dropped-on-emission", []string{"C12"}, "a zero element dropped or kept at the wrong place changes what the reference implementation decodes"},
+	{"R-THRIFTLAYOUT", "binary:strict-detection:reader", []string{"C08"}, "a header byte taken for the wrong framing makes ReadMessage read a negative or huge name length"},
+	{"R-REMAINDER", "remainder:json.(*Tokenizer).", []string{"C17"}, "what the Tokenizer's accessors drop or mis-parse is the decoded value they report"},
 	{"R-POOL", "pool:scrub-before-put@json.(encoder)", []string{"C15"}, "stale entries of the pooled scratch are written after the caller's prefix in place of the value"},
 }
 
